@@ -21,7 +21,8 @@ EXPLANATION = (
     "protocol (parse only after errors()==None, header/xml only after parse errors()==None). "
     "Not decided: acceptance of all well-formed modules, stack bytes, behaviour for concrete inputs."
     " ADDED LATER: R5-CONST also: C + K*MAX_NUM_TOKENS <= MAX_NUM_NODES (node ids are 24 bits); R11-ONE-TAKE-PAST-END: on the MIR of every parser function, from a take() every path to another consuming call passes a switch edge that excludes EndOfSource."
-    " ROUNDS 5-6: R13-ASSERTED-CAPACITY: a vector whose pushes assert len < capacity is pre-allocated with the caller's bound, unreduced; C14.R7 digit tables shared (which bytes a literal swallows). Panic-site keys no longer contain the asserted expression text.")
+    " ROUNDS 5-6: R13-ASSERTED-CAPACITY: a vector whose pushes assert len < capacity is pre-allocated with the caller's bound, unreduced; C14.R7 digit tables shared (which bytes a literal swallows). Panic-site keys no longer contain the asserted expression text."
+    " ROUND 7: R6-LOOP-STARTS-AT-STARTER: inside the declaration loop the position of the next declaration is always a find_next(starts_declaration) result, on every branch (the loop bound counts such iterations).")
 
 PT = "delta::parser::parse_tree::"
 TOK = "delta::parser::tokens::Tokens::"
